@@ -435,7 +435,237 @@ def run(ctx, prog):
         if not found_enforce:
             ctx.inst('C19.R3', 'rpc ' + h, 'calls enforce_rate_limit', False, 'no enforce_rate_limit call in the handler of %s' % h)
     ctx.floor('C19.R3', 'engine sinks in tenant-scoped handlers', n_sink, 18, 'measured on the pinned tree')
+    bucket_state_closed(ctx, prog)
+    declared_rate(ctx, prog)
+    charged_once(ctx, prog)
     ctx.stat('functions_analysed', len(TENANT_RPCS) + 6)
+
+
+# ---------------------------------------------------------------------- R4
+T_BUCKET_MUT = r'^&mut (?:kyrodb_engine::)?rate_limiter::TokenBucket$'
+MAP_MUTATORS = r'HashMap(?:<.*>)?::(insert|entry|remove|remove_entry|clear|retain|drain|extend|get_mut|iter_mut|values_mut|extract_if|try_insert)$'
+ENTRY_OK = ('or_insert_with', 'or_insert', 'or_default', 'or_insert_with_key', 'key')
+
+
+def bucket_state_closed(ctx, prog):
+    """C19.R4: R1 closes the writes of the FIELD tokens; this closes the other ways in which the token count of a live bucket can change."""
+    ctx.rule('C19.R4', 'the token count of a registered bucket moves only through the bucket\'s own operations (time credit, −1 under tokens ≥ 1, capped refund): '
+                       'no store overwrites a whole TokenBucket behind a reference (`*bucket.lock() = TokenBucket::new(..)` hands the tenant a second full burst '
+                       'without time passing — alternating two limits makes every request hit a full bucket), no `&mut TokenBucket` is handed to a function outside '
+                       'the analysed crates (mem::replace / swap / take), the shared map RateLimiter.buckets is written only by entry(key).or_insert_with(..) — a '
+                       'present entry is never replaced or dropped — and the fields holding the buckets are set at construction only')
+    n_ref = n_use = 0
+    for b in sorted(prog.bodies.values(), key=lambda x: x.id):
+        if b.kind == 'Promoted' or b.crate not in ('kyrodb_engine', 'kyrodb_server'):
+            continue
+        refs = set(l for l, t in enumerate(b.locals) if re.match(T_BUCKET_MUT, t))
+        fn = b.short
+        if refs:
+            n_ref += 1
+            stores = []
+            for i in sorted(b.live_blocks()):
+                blk = b.blocks[i]
+                for s in blk['s']:
+                    if 'rv' in s and s['pl']['l'] in refs and s['pl'].get('p') == ['*']:
+                        stores.append(s.get('loc') or b.loc_of(i))
+                t = blk['t']
+                if t['k'] == 'call' and t.get('dest') and t['dest']['l'] in refs and t['dest'].get('p') == ['*']:
+                    stores.append(t.get('loc', '?'))
+            ctx.inst('C19.R4', fn, 'a bucket behind a reference is never overwritten as a whole', not stores,
+                     ('whole-bucket store at %s: the registered bucket is replaced (tokens back to capacity) without time having passed' % stores) if stores
+                     else '%d reference(s) to a live bucket, no store through them' % len(refs))
+            k = 0
+            for c in b.calls:
+                if not any(a.get('k') in ('mv', 'cp') and not a['pl'].get('p') and a['pl']['l'] in refs for a in c.args):
+                    continue
+                n_use += 1
+                g = prog.resolve_local(c.callee) if c.callee else None
+                ctx.inst('C19.R4', fn, 'live bucket handed on #%d stays inside the analysed code' % k, g is not None,
+                         ('%s is analysed (its own stores are inventoried here and in R1)' % flow.short(c.callee)) if g is not None else
+                         '&mut TokenBucket passed to %s at %s: a function outside the analysed crates can replace the bucket\'s state' % (c.callee or 'an indirect callee', c.loc))
+                k += 1
+        if 'rate_limiter' not in b.id:
+            continue
+        of = None
+        k = ke = 0
+        for c in b.calls:
+            sh = flow.short(c.callee or '')
+            m = re.search(MAP_MUTATORS, sh)
+            if m and c.args:
+                of = of or flow.Origin(b)
+                if 'RateLimiter.buckets' not in flow.render(of.of_operand(c.args[0])):
+                    continue
+                ctx.inst('C19.R4', fn, 'bucket map write #%d only adds a bucket for a vacant key' % k, m.group(1) == 'entry',
+                         'HashMap::%s on RateLimiter.buckets at %s%s' % (m.group(1), c.loc, '' if m.group(1) == 'entry' else
+                                                                        ': replaces or drops a registered bucket — the next request of the tenant finds a new, full one'))
+                k += 1
+            m = re.search(r'hash_map::(?:Entry|OccupiedEntry|VacantEntry)(?:<.*>)?::(\w+)$|^(?:Entry|OccupiedEntry|VacantEntry)::(\w+)$', sh)
+            if m:
+                meth = m.group(1) or m.group(2)
+                ctx.inst('C19.R4', fn, 'map entry use #%d keeps a present bucket' % ke, meth in ENTRY_OK,
+                         'Entry::%s at %s%s' % (meth, c.loc, '' if meth in ENTRY_OK else ': can overwrite the bucket of an occupied entry'))
+                ke += 1
+        fw = []
+        for i in sorted(b.live_blocks()):
+            for s in b.blocks[i]['s']:
+                if 'rv' not in s:
+                    continue
+                fs = [x for x in (s['pl'].get('p') or []) if isinstance(x, str) and x != '*']
+                if fs and re.search(r'RateLimiter\.(buckets|global_bucket)$', fs[-1]):
+                    fw.append('%s at %s' % (fs[-1].rsplit('::', 1)[-1], s.get('loc', '?')))
+        if fw:
+            ctx.inst('C19.R4', fn, 'bucket holders are set at construction only', False, 'assignment to %s: every registered bucket (or the global one) is replaced by a new, full one' % fw)
+    ctx.floor('C19.R4', 'functions holding a reference to a live bucket', n_ref, 4, 'check_limit, the available_tokens closure, TokenBucket::{try_consume, refund_one, refill, available_tokens}')
+    ctx.floor('C19.R4', 'sites handing a live bucket on', n_use, 6, 'check_limit: 4 try_consume + 2 refund_one; try_consume → refill')
+
+
+# ---------------------------------------------------------------------- R5
+def _validated_field(e, field):
+    """e is `<AuthManager::validate(..) result>.field`, read as is: a field of the validated TenantInfo below nothing but variant / tuple projections."""
+    if e[0] != 'field' or not e[2].endswith(field):
+        return False
+    x = e[1]
+    while x[0] in ('downcast', 'field') and (x[0] == 'downcast' or re.match(r'^\.\d+$', x[2]) or re.search(r'(Continue|Some|Ok)\.0$', x[2])):
+        x = x[1]
+    return x[0] == 'call' and bool(re.search(r'AuthManager::validate$', x[1]))
+
+
+def _leaf_defs(b, op, of, at, depth=0):
+    """(block, origin tree) of the definitions that can supply operand `op` (plain copies of temporaries followed; `at`: block of the use, for constants)."""
+    if op.get('k') not in ('mv', 'cp') or op['pl'].get('p'):
+        return [(at, of.of_operand(op))]
+    l = op['pl']['l']
+    ds = [d for d in b.defs.get(l, []) if d[2] in ('assign', 'call')]
+    if not ds or depth > 6:
+        return [(at, of.of_operand(op))]
+    out = []
+    for d in ds:
+        if d[2] == 'call':
+            out.append((d[0], of.of_call(d[3], 0, frozenset())))
+            continue
+        rv = d[3]['rv']
+        a = rv.get('a') if rv['k'] == 'use' else None
+        if a is not None and a.get('k') in ('mv', 'cp') and not a['pl'].get('p') and b.defs.get(a['pl']['l']):
+            out += _leaf_defs(b, a, of, d[0], depth + 1)
+        else:
+            out.append((d[0], of.of_rvalue(rv, 0, frozenset())))
+    return out
+
+
+def _interceptor(ctx, prog, rid):
+    m = ctx.body(rid, 'kyrodb_server::main')
+    ic = [b for b in prog.family(m) if b.kind == 'Closure' and b.calls_to('AuthManager::validate')]
+    if not ic:
+        ctx.missing(rid, 'main: interceptor closure calling AuthManager::validate')
+        return None
+    return ic[0]
+
+
+def declared_rate(ctx, prog):
+    ctx.rule('C19.R5', 'the rate a tenant is limited to is the rate declared with its key: the max_qps the auth interceptor puts into the TenantContext (which '
+                       'enforce_rate_limit hands to check_limit, R3) is the validated key\'s own max_qps on every path on which that is non-zero; a substitute '
+                       '(the configured default, "unlimited") is chosen only past the test max_qps == 0 — otherwise a switch such as rate_limit.enabled = false '
+                       'replaces a declared 5/s by 4 294 967 295/s and the tenant\'s rate bounds nothing')
+    ic = _interceptor(ctx, prog, 'C19.R5')
+    if ic is None:
+        return
+    io = flow.Origin(ic)
+    aggs = [(i, s['rv']) for i, bl in enumerate(ic.blocks) for s in bl['s'] if s.get('rv', {}).get('k') == 'agg' and s['rv'].get('adt', '').endswith('TenantContext')
+            and 'max_qps' in (s['rv'].get('fields') or [])]
+    if not aggs:
+        ctx.missing('C19.R5', 'interceptor: construction of the TenantContext')
+        return
+    zero = []
+    for j, bl in enumerate(ic.blocks):
+        if bl['t']['k'] != 'switch':
+            continue
+        for tg, p in flow.switch_edge_predicates(ic, j, io):
+            mm = re.match(r'^(!?)cmp\[\+ (.*) (==|<=|>=) (\d+)\]$', p)
+            if mm and re.match(r'^AuthManager::validate\(.*→TenantInfo\.max_qps$', mm.group(2)):
+                neg, rel, c = mm.group(1), mm.group(3), int(mm.group(4))
+                if (not neg and rel in ('==', '<=') and c == 0) or (neg and rel == '>=' and c == 1):
+                    zero.append((j, tg))
+            mm = re.match(r'^(AuthManager::validate\(.*→TenantInfo\.max_qps) = 0$', p)
+            if mm:
+                zero.append((j, tg))
+    r0 = ic.reach([0], avoid_edges=zero)
+    n_leaf = n_decl = 0
+    for (ab, rv) in aggs:
+        k = 0
+        for (bb, e) in _leaf_defs(ic, rv['ops'][rv['fields'].index('max_qps')], io, ab):
+            n_leaf += 1
+            if _validated_field(e, 'TenantInfo.max_qps'):
+                n_decl += 1
+                continue
+            ok = bool(zero) and bb not in r0 and bb != 0
+            ctx.inst('C19.R5', 'interceptor', 'substitute rate #%d is chosen only for a key without its own limit' % k, ok,
+                     'max_qps = %s %s' % (flow.render(e)[:90], 'only past `key.max_qps == 0`' if ok else
+                                          'at %s is reachable although the key declares a non-zero max_qps: the declared rate is not what the limiter enforces' % ic.loc_of(bb)))
+            k += 1
+    ctx.inst('C19.R5', 'interceptor', 'the declared rate of the validated key reaches the TenantContext', n_decl >= 1,
+             '%d of %d possible values of TenantContext.max_qps are AuthManager::validate(..)→TenantInfo.max_qps as is; zero-test edges: %s' % (n_decl, n_leaf, zero[:2]))
+    ctx.floor('C19.R5', 'possible values of TenantContext.max_qps', n_leaf, 2, 'the key\'s own rate, max(default, 1), u32::MAX')
+
+
+# ---------------------------------------------------------------------- R6
+def charged_once(ctx, prog):
+    ctx.rule('C19.R6', 'a unary request is charged once: on no path through a unary tenant-scoped handler do two limiter charges execute (a call of a function that '
+                       'reaches RateLimiter::check_limit: enforce_rate_limit, or a service helper such as handle_search_request that charges itself). A request '
+                       'that costs two tokens halves the rate the tenant can use: below its rate it is refused while the global budget has room, and the global '
+                       'bucket drains twice as fast for everybody. (Streaming RPCs charge the opening and every item on purpose and are not counted here.)')
+    # functions of the server that charge: their family calls check_limit, or a function that does
+    roots = {}
+    for b in prog.bodies.values():
+        if b.crate == 'kyrodb_server':
+            roots.setdefault(b.root, []).append(b)
+    chargers = set()
+    changed = True
+    while changed:
+        changed = False
+        for r, bs in roots.items():
+            if r in chargers or r.startswith(server.SERVICE_PREFIX):
+                continue
+            for b in bs:
+                for c in b.calls:
+                    g = prog.resolve_local(c.callee) if c.callee else None
+                    if c.callee and (c.callee.endswith('RateLimiter::check_limit') or (g is not None and g.root in chargers)):
+                        chargers.add(r)
+                        changed = True
+                        break
+                if r in chargers:
+                    break
+    if not any(r.endswith('KyroDBServiceImpl::enforce_rate_limit') for r in chargers):
+        ctx.missing('C19.R6', 'enforce_rate_limit reaching RateLimiter::check_limit')
+    n_unary = n_sites = 0
+    for h in TENANT_RPCS:
+        fam = server.handler_family(prog, h)
+        if not fam:
+            continue
+        root = fam[0]
+        if any('Streaming<' in root.locals[i] for i in range(1, root.argc + 1)):
+            ctx.exception('C19.R6', 'rpc ' + h, 'streaming RPC: the opening and every item are charged (R3 decides that no item goes uncharged)')
+            continue
+        n_unary += 1
+        per_body = []
+        double = []
+        for b in fam:
+            sites = [c for c in b.calls if c.callee and prog.resolve_local(c.callee) is not None and prog.resolve_local(c.callee).root in chargers]
+            if not sites:
+                continue
+            per_body.append((b, sites))
+            n_sites += len(sites)
+            for c1 in sites:
+                after = b.reach(b.succ(c1.bb)) | set(b.succ(c1.bb))
+                for c2 in sites:
+                    if c2.bb in after:
+                        double.append('%s at %s, then %s at %s' % (flow.short(c1.callee), c1.loc, flow.short(c2.callee), c2.loc))
+        if len(per_body) > 1:
+            double.append('charges in %d different bodies of the handler: %s' % (len(per_body), [(b.short[-40:], [c.loc for c in s]) for b, s in per_body]))
+        ctx.inst('C19.R6', 'rpc ' + h, 'at most one limiter charge on any path', not double,
+                 ('the request is charged twice: %s' % '; '.join(double[:2])) if double else
+                 'charging calls: %s' % [flow.short(c.callee) for b, s in per_body for c in s])
+    ctx.floor('C19.R6', 'unary tenant-scoped handlers', n_unary, 7, 'insert, query, delete, update_metadata, search, bulk_query, batch_delete')
+    ctx.floor('C19.R6', 'charging call sites in unary handlers', n_sites, 7, 'one each')
 
 
 def _creation_dominated(prog, closure, family):
